@@ -18,7 +18,7 @@ PROP = {
   'code as it is: proved negations C03_register_full_false_pull_delete (F03a) and '
   'C03_register_full_false_commit_race (F03b). C03_register_partial carries the hypotheses GoodStep = (1) no '
   'deleting command outside requires_blocking_migration is issued (F03a), (2) the destination installs the committed '
-  'metadata only while no key lock of the key is held (F03b); everything else (slow path, all connection counts, both '
+  'metadata only while the key-lock holder of the key owns no DUMP it may still RESTORE (F03b); everything else (slow path, all connection counts, both '
   'redirect modes, any number of concurrent ops, spurious slot-mutex contention) is covered',
   'per-key model: cross-key effects enter only as spurious SlotMutex contention and lock-step scan batches',
   'liveness (every op eventually answers, the scan terminates) is not stated',
